@@ -4788,6 +4788,14 @@ static void close_file_descriptor(struct archive_write_disk* a)
 		close(a->fd);
 		a->fd = -1;
 	}
+	/*
+	 * This is only used on error paths: the entry is abandoned, so
+	 * a safe-writes temporary file must not be left behind.
+	 */
+	if (a->tmpname != NULL) {
+		unlink(a->tmpname);
+		a->tmpname = NULL;
+	}
 }
 
 
